@@ -175,6 +175,19 @@ Example C17_coding_name_examples :
   = [true; true; false].
 Proof. vm_compute. reflexivity. Qed.
 
+(* The length limit.  The verdict on a chunk-size line (any CRLF-terminated
+   line) depends on its length only -- at most MAX_LINE_SIZE = 65536 bytes:
+   delivered; longer: LineTooLong -- and not on where the reads cut the stream,
+   in particular not on a cut between the CR and the LF that end the line. *)
+Theorem C17_size_line_limit_cut_independent : forall reads line rest,
+  ~ In CRb line -> concat reads = line ++ CRLFb ++ rest ->
+  ((lenN line <= max_line)%N ->
+     exists p os, feeds (line_stage ECrlf) (Live false []) reads = (p, line :: os)) /\
+  ((max_line < lenN line)%N ->
+     feeds (line_stage ECrlf) (Live false []) reads = (Dead HTTPExc, [])).
+Proof. exact crlf_line_limit_cut_independent. Qed.
+Print Assumptions C17_size_line_limit_cut_independent.
+
 (* Non-vacuity: a response whose head and first bytes were parsed, then the
    rest (two chunks, last-chunk, trailer) arrives together with the closure. *)
 Example C17_closed_example :
